@@ -393,6 +393,80 @@ def main():
         except Exception as ex:
             npred += 1; failures["lazyrrt-script"] += 1
             if first_pred is None: first_pred = (ll, "geometric::LazyRRT (scripted): no observation (%s) %s" % (ex, a[:80]))
+    # (f) geometric::EST as a whole against EstModel.est_solve on Coq's primitive binary64 floats (vm_compute; no OCaml copy of the
+    #     formulas): node selection by the PDF (PdfModel inside), neighbourhood counts, density rejection, weights; tree, report, weights
+    def cfl(x):
+        h = float(x).hex()
+        return "(%s)%%float" % h if x >= 0 and not (x == 0 and math.copysign(1, x) < 0) else "(- (%s))%%float" % float(-x).hex()
+    def q10(x): return round(x * 1024) / 1024.0
+    elines = []; eterms = []
+    for i in range(150 if quick else 3000):
+        md = rng.choice([1.5, 3.0, 6.0]); bias = rng.choice([0.0, 0.0625, 0.125, 0.25]); thr = rng.choice([0.25, 0.5, 1.0]); iters = rng.choice([0, 1, 5, 15, 40, 40])
+        walls = [(q10(rng.uniform(0, 10)), lo, lo + rng.choice([0.5, 2.0, 6.0])) for _ in range(rng.choice([0, 1, 1, 2])) for lo in [q10(rng.uniform(0, 8))]]
+        starts = [(q10(rng.uniform(0, 10)), q10(rng.uniform(0, 10)))]
+        for _ in range(rng.choice([0, 0, 1, 2])):
+            b0 = rng.choice(starts); starts.append((q10(b0[0] + rng.uniform(-md / 2, md / 2)), q10(b0[1] + rng.uniform(-md / 2, md / 2))) if rng.random() < 0.6 else (q10(rng.uniform(0, 10)), q10(rng.uniform(0, 10))))
+        g = (q10(rng.uniform(0, 10)), q10(rng.uniform(0, 10)))
+        tape = [rng.randrange(256) / 256.0 for _ in range(3 * iters + 4)]
+        pts = list(starts); samples = []
+        for _ in range(iters):
+            r = rng.random()
+            if r < 0.08: samples.append(None); continue
+            if r < 0.75: b0 = rng.choice(pts); p = (q10(b0[0] + rng.uniform(-md / 2, md / 2)), q10(b0[1] + rng.uniform(-md / 2, md / 2)))
+            elif r < 0.8: p = rng.choice(pts)                        # a repeated state: distance 0, equal keys in the neighbour sort
+            else: p = (q10(rng.uniform(0, 10)), q10(rng.uniform(0, 10)))
+            samples.append(p); pts.append(p)
+        elines.append("EST %r %r %r %d W %d %s S %d %s G %r %r T %d %s P %d %s" % (md, bias, thr, iters, len(walls), " ".join("%r %r %r" % w for w in walls), len(starts), " ".join("%r %r" % q for q in starts),
+                      g[0], g[1], len(tape), " ".join("%r" % u for u in tape), len(samples), " ".join("- -" if q is None else "%r %r" % q for q in samples)))
+        eterms.append("est_float %s %s %s %d [%s] [%s] (%s, %s) [%s] [%s]" % (cfl(md), cfl(bias), cfl(thr), iters, "; ".join("(%s, %s, %s)" % tuple(map(cfl, w)) for w in walls), "; ".join("(%s, %s)" % tuple(map(cfl, q)) for q in starts),
+                      cfl(g[0]), cfl(g[1]), "; ".join(map(cfl, tape)), "; ".join("None" if q is None else "Some (%s, %s)" % tuple(map(cfl, q)) for q in samples)))
+    rce, oce, ece, sce = vf.sh([rdrv], input="\n".join(elines) + "\n", timeout=900); c.step("correspond:impl-est", rdrv, sce, rce == 0)
+    iel = [l for l in oce.split("\n") if l.startswith("est")]
+    mel = []; tm = 0.0
+    for a0 in range(0, len(eterms), 150):
+        src = "From Coq Require Import Floats List. From OmplV Require Import EstFloat. Import ListNotations.\nLocal Open Scope float_scope.\nEval vm_compute in [\n" + ";\n".join(eterms[a0:a0 + 150]) + "].\n"
+        pth = os.path.join(c.outdir, "est_cases_%d.v" % a0); open(pth, "w").write(src)
+        rcm, ocm, ecm, scm = vf.sh("timeout 900 coqc -Q %s OmplV %s" % (vf.COQ, pth), timeout=1000); tm += scm
+        if rcm != 0: c.broken.append("model evaluation (coqc est_cases) failed: " + (ecm or ocm)[-300:]); break
+        txt = ocm[ocm.index("["):ocm.rindex("]") + 1].replace("%float", "").replace(";", ",")
+        mel += eval(txt, {"__builtins__": {}, "infinity": float("inf"), "neg_infinity": float("-inf"), "nan": float("nan")})
+    c.step("correspond:model-est", "coqc est_cases_*.v (Eval vm_compute, EstFloat on PrimFloat)", tm, not c.broken)
+    def fb(x): return struct.unpack("<Q", struct.pack("<d", x))[0]
+    nest_bad = 0; est_stats = collections.Counter()
+    for k, el in enumerate(elines):
+        a = iel[k].strip() if k < len(iel) else "<no output>"
+        try:
+            parts = [x.strip() for x in a.split("|")]
+            nodes = [t.split() for t in parts[0].split(";")[1:] if t.strip()]
+            itree = [v for t in nodes for v in (int(t[0], 16), int(t[1], 16), fb(float(int(t[2]))))]
+            rep = parts[1].split(); irep = [] if rep[0] != "1" else [fb(float(int(rep[1]))), int(rep[2], 16)] + [int(x, 16) for t in parts[2].split(";") if t.strip() for x in t.split()]
+            iw = [int(x, 16) for x in parts[3].split()]
+            est_stats["none" if rep[0] != "1" else ("exact" if rep[1] == "0" else "approximate")] += 1; est_stats["nodes"] += len(nodes)
+            est_stats["weights_below_one"] += sum(1 for x in iw if x != fb(1.0))
+            if k < len(mel):
+                m = mel[k]; mrep = [fb(float(x)) for x in m[1]]
+                if len(mrep) > 1 and len(irep) > 1 and mrep[0] == fb(0.0) and irep[0] == fb(0.0): mrep[1] = irep[1] = 0      # the difference of an exact solution is not recorded by the problem definition
+                same = [fb(float(x)) for x in m[0]] == itree and mrep == irep and [fb(float(x)) for x in m[2]] == iw
+                if not same:
+                    nest_bad += 1; ndiff += 1
+                    if first_diff is None or len(el) < len(first_diff[0]): first_diff = (el, "geometric::EST: implementation '%s' EstModel (tree, report, weights) %r" % (a[:300], m))
+            w = el.split(); nw = int(w[6]); walls = [(float(w[7 + 3 * j]), float(w[8 + 3 * j]), float(w[9 + 3 * j])) for j in range(nw)]
+            o = 7 + 3 * nw; ns = int(w[o + 1]); starts = [(float(w[o + 2 + 2 * j]), float(w[o + 3 + 2 * j])) for j in range(ns)]
+            o = o + 2 + 2 * ns; goal = (float(w[o + 1]), float(w[o + 2])); thr = float(w[3])
+            if rep[0] == "1":
+                path = [(fl(t.split()[0]), fl(t.split()[1])) for t in parts[2].split(";") if t.strip()]
+                bad = None
+                if not path or path[0] not in starts: bad = "the reported path does not begin at a start state"
+                elif any(touches(kk, u, v) for u, v in zip(path, path[1:]) for kk in walls): bad = "the reported path contains a motion that touches a wall"
+                elif rep[1] == "0" and not (edist(path[-1], goal) < thr): bad = "the exact solution ends %r from the goal (threshold %r)" % (edist(path[-1], goal), thr)
+                elif rep[1] == "1" and edist(path[-1], goal) < thr: bad = "a path that ends within the goal threshold is reported as approximate"
+                if bad:
+                    npred += 1; failures["est-script"] += 1
+                    if first_pred is None: first_pred = (el, "geometric::EST (scripted): " + bad)
+        except Exception as ex:
+            npred += 1; failures["est-script"] += 1
+            if first_pred is None: first_pred = (el, "geometric::EST (scripted): no observation (%s) %s" % (ex, a[:80]))
+    c.cov.update({"est_scripts": len(elines), "est_disagreements": nest_bad, "est_reports": dict(est_stats)})
     c.cov.update({"lazyrrt_scripts": len(llines), "lazyrrt_disagreements": nlz_bad, "lazyrrt_reports": dict(lz_stats)})
     c.cov.update({"rrtconnect_scripts": len(clines), "rrtconnect_disagreements": nrc_bad, "rrtconnect_reports": dict(rc_stats)})
     c.cov["samples"] = jobs[:3]
